@@ -181,23 +181,29 @@ pub fn run(out: &Path, seed: u64, thorough: bool) -> Result<(), Box<dyn std::err
         }
         let _ = s;
     }
-    let engine_evals = engine_crash_search(seed, thorough, &mut failures, &mut dist);
+    let mut rt = RecoveryTie::default();
+    let engine_evals = engine_crash_search(seed, thorough, &mut failures, &mut dist, &mut rt);
     evaluations += engine_evals;
     let imports = "From Brc.Model Require Import Base History Table Tie04.\nFrom BrcGen Require Import Consts.";
     let mut files = cf::write_shards(out, "c04_k", imports, "kcase", "bad_kcases W", &terms, 16)?;
     // store level: the recorded persistent writes of every commit / reorg of real engine runs
     // against the model's write scripts (Model/Crash.v, checker Model/TieCrash.v)
     let st = store_script_tie(seed, thorough, &mut failures, &mut dist);
-    let st_imports = "From Brc.Model Require Import Base History Table BlockTable Store Crash TieCrash.\nFrom BrcGen Require Import Consts.";
+    let st_imports = "From Brc.Model Require Import Base History Table BlockTable Store Crash Tie01 TieCrash.\nFrom BrcGen Require Import Consts.";
     let st_files = cf::write_shards(out, "c04_s", st_imports, "ccase", "bad_ccases W", &st.terms, 8)?;
     files.extend(st_files);
     evaluations += st.checks;
+    // recovery tie: the crashed-and-recovered runs of the crash search against the model
+    let rc_files = cf::write_shards(out, "c04_r", st_imports, "ccase", "bad_ccases W", &rt.terms, 16)?;
+    files.extend(rc_files);
     if samples.len() < 3 { if let Some(x) = st.sample.clone() { samples.push(x); } }
     let meta = json!({
         "files": files,
         "evaluations": evaluations,
         "distinct_nontrivial": terms.len(),
         "crash_points": crash_points, "engine_level_crash_recoveries": engine_evals,
+        "recovery_tie_records": rt.records, "recovery_tie_sites": rt.sites, "recovery_tie_noop_recoveries": rt.noop, "recovery_tie_crashes_in_reorg_block_tail": rt.in_block_tail,
+        "recovery_tie_rule": "every crash point of the engine-level crash search (fail-point at persistent-write index k of a brc20_commitToDatabase / brc20_reorg: first, last, middle, random indexes and EVERY index of a reorg's tail = the block tables' delete loops and the closing commit; reopen; brc20_reorg(n) to the crashed reorg's target / the durable height / one below) is also handed to the model: Coq replays the store-operation trace up to the operation, checks that the writes done before the crash are a prefix of the operation's script for some HashMap order, applies them to the persistent part, reopens, runs engine_reorg, and compares (a) the recorded persistent writes of the recovery call with the model's reorg script on the crashed store and (b) a probe of the recovered instance (48 point reads, range scans, the rows of the three block tables over 15 heights, heights, max row) with the model's recovered store. Failure id = record id + code * 10^9 (1 prefix, 2 recovery writes, 3 probe, 4 model failed).",
         "store_script_checks": st.checks, "store_script_histories": st.terms.len(), "store_script_writes_compared": st.writes,
         "store_script_rule": "store level: histories with commits (every 2-3 blocks / random) and in-window reorgs run on the real engine behind the RPC table; for EVERY accepted brc20_commitToDatabase and brc20_reorg the recorder's persistent-write events (table, key, put/delete, value; flushes) are compared in Coq with the write script the model computes from the store-operation trace up to that point (sto_run, then commit_script / reorg_script): everything outside the versioned tables exactly and in order, the versioned part as key pairs (order inside a pair exact; pairs sorted by (table, key) since HashMap order is arbitrary), tables in the reflected order; the trace is also checked to be in the domain of the crash theorems (crun, clean boundary, guard = do).",
         "rule": "table level: random histories over 4 keys (window-edge jumps, unsets, commits, in-window reorgs); for EVERY commit / reorg and EVERY persistent write of it, the run is repeated with the fail-point armed at that write (that write and all later ones are not performed), the table is reopened and a recovery reorg is issued to the highest and to the lowest admissible height (<= the durable height, <= a crashed reorg's target, inside the window); every key is compared with the write log. Engine level (search only): histories with commits run on the real engine behind the RPC table, a crash at sampled persistent-write indexes (first, last, middle, random) of brc20_commitToDatabase, reopen, brc20_reorg to the durable height (and one below), full observation against a fresh instance fed only the surviving blocks. A case is one (history, crash site, write index, recovery target); all are distinct by construction.",
@@ -211,11 +217,46 @@ pub fn run(out: &Path, seed: u64, thorough: bool) -> Result<(), Box<dyn std::err
 }
 
 
+/// The recorder's persistent-write events of one call as `rw` terms of Model/TieCrash.v.
+fn rw_terms(tr: &mut crate::trace::Tracer, evs: &[Ev]) -> Vec<String> {
+    use crate::trace::{key_term, norm_block_row, BTABLES, VTABLES};
+    let mut ws: Vec<String> = Vec::new();
+    for e in evs {
+        match e {
+            Ev::VPut { table, hist, key, val } => {
+                let t = VTABLES.iter().position(|x| x == table).unwrap_or(99);
+                let v = if *hist { if val.is_some() { "(Some 0)".to_string() } else { "None".to_string() } }
+                        else { match val { Some(b) => format!("(Some {})", tr.val(b)), None => "None".to_string() } };
+                ws.push(format!("RV {} {} {}", hist, key_term(t, key), v));
+            }
+            Ev::BPut { table, key, val } => {
+                let b = BTABLES.iter().position(|x| x == table).unwrap_or(99);
+                let v = match val {
+                    Some(x) => { let id = if tr.norm_rows && b == 1 { let nb = norm_block_row(x); tr.val(&nb) } else { tr.val(x) }; format!("(Some {})", id) }
+                    None => "None".to_string(),
+                };
+                ws.push(format!("RB {} {} {}", b, key, v));
+            }
+            Ev::BFlush { table } => { let b = BTABLES.iter().position(|x| x == table).unwrap_or(99); ws.push(format!("RF {}", b)); }
+            Ev::CFlush { .. } => ws.push("RF 3".to_string()),
+            Ev::CPut { .. } => ws.push("RF 98".to_string()),
+            _ => {}
+        }
+    }
+    ws
+}
+
+/// What the crash search hands to the model tie: one case per crash site (the store-operation
+/// trace up to the site + one record per injected crash: writes done, recovery target, the
+/// recovery's own writes, a probe of the recovered instance).
+#[derive(Default)]
+pub struct RecoveryTie { pub terms: Vec<String>, pub records: u64, pub sites: u64, pub noop: u64, pub in_block_tail: u64 }
+
 /// Engine-level crash search (no model): a history with commits is run on the real engine;
 /// for a commit (or reorg) the fail-point is armed at a persistent-write index, the instance
 /// is reopened and reorged to durable heights inside the window, and the full observation is
 /// compared with a fresh instance fed only the blocks up to that height.
-fn engine_crash_search(seed: u64, thorough: bool, failures: &mut Vec<serde_json::Value>, dist: &mut BTreeMap<String, u64>) -> u64 {
+fn engine_crash_search(seed: u64, thorough: bool, failures: &mut Vec<serde_json::Value>, dist: &mut BTreeMap<String, u64>, rt: &mut RecoveryTie) -> u64 {
     use crate::sim::{diff_obs, gen_history, with_schedule, CommitSchedule, GenParams, Genesis, Op as SOp, Run};
     let mut rng = Rng::new(seed ^ 0xE04);
     let nhist = if thorough { 14 } else { 3 };
@@ -240,17 +281,36 @@ fn engine_crash_search(seed: u64, thorough: bool, failures: &mut Vec<serde_json:
         }
         for site in sites {
             // count the persistent writes of this commit with a dry run
+            // (traced: the store-operation trace up to the site is what the model replays)
             let mut dry = Run::new();
-            if !dry.run(&h[..site]) || dry.tracker.desynced { continue; }
+            let mut tr = crate::trace::Tracer::new();
+            tr.norm_rows = true;
+            let mut ok = true;
+            for op in &h[..site] {
+                let o = dry.step(op).clone();
+                if o.status.is_fatal() { ok = false; break; }
+                let resolved = dry.log.last().unwrap().0.clone();
+                tr.absorb(&resolved, &o);
+            }
+            if !ok || dry.tracker.desynced { continue; }
+            let trace_items: Vec<String> = tr.items.drain(..).filter_map(|it| it.strip_prefix("IOp ").map(|r| format!("CIOp {}", r))).collect();
             vh::arm_failpoint(None);
             let before = vh::writes();
             let dry_height = dry.tracker.height();
-            let _ = dry.step(&h[site]);
+            let dry_out = dry.step(&h[site]).clone();
             let total = vh::writes().saturating_sub(before);
+            // the writes of the uninterrupted operation, by index: which crash points lie in the
+            // block tables' tail of a reorg
+            let full_evs: Vec<Ev> = dry_out.events.iter().filter(|e| matches!(e, Ev::VPut { .. } | Ev::BPut { .. } | Ev::BFlush { .. } | Ev::CFlush { .. } | Ev::CPut { .. })).cloned().collect();
+            let last_vput = full_evs.iter().rposition(|e| matches!(e, Ev::VPut { .. }));
             drop(dry);
             if total == 0 { continue; }
+            let site_term = match &h[site] { SOp::Reorg(t) => format!("(SReorg {})", t), _ => "(SCommit)".to_string() };
+            let mut records: Vec<String> = Vec::new();
             let mut ks: Vec<u64> = vec![0, 1, 2, 3, total / 2, total.saturating_sub(3), total.saturating_sub(2), total.saturating_sub(1)];
             for _ in 0..(if thorough { 10 } else { 4 }) { ks.push(rng.below(total)); }
+            // thorough: a regular grid over the whole script as well
+            if thorough { let step = (total / 40).max(1); let mut k = 0; while k < total { ks.push(k); k += step; } }
             // a reorg ends with the block-keyed tables' delete loops (one delete per orphaned block and
             // table) and the closing commit: every crash point of that tail, so that a crash strictly
             // inside one table's delete loop is always among them
@@ -271,20 +331,37 @@ fn engine_crash_search(seed: u64, thorough: bool, failures: &mut Vec<serde_json:
                 let crashed = vh::crashed();
                 vh::arm_failpoint(None);
                 if !crashed { continue; }
-                let _ = out;
+                let done = rw_terms(&mut tr, &out.events);
                 if a.inst.reopen_in_place().is_err() { failures.push(json!({"what": "c04: the database could not be reopened after a crash in commit", "case": {"history": h[..=site].to_vec(), "crash_at_write": k}})); continue; }
                 *dist.entry("engine_crash_in_commit".into()).or_default() += 1;
                 let Some(height) = height else { continue };
                 if durable == 0 { continue; }
                 let c = durable - 1; // durable height
                 // a crashed reorg(T): targets are T itself (the same call again) and below
-                let targets: Vec<u64> = match &h[site] { SOp::Reorg(t) => vec![(*t).min(c)], _ => vec![c, c.saturating_sub(1)] };
+                // (commits: alternately the durable height itself and one below)
+                let targets: Vec<u64> = match &h[site] { SOp::Reorg(t) => vec![(*t).min(c)], _ => if k % 2 == 1 && c >= 1 { vec![c - 1, c] } else { vec![c, c.saturating_sub(1)] } };
                 if matches!(&h[site], SOp::Reorg(_)) { *dist.entry("engine_crash_in_reorg".into()).or_default() += 1; }
                 for n in targets {
                     if height > n + W { continue; }
                     // recovery: reorg to n on a copy of the crashed instance is destructive, so re-crash for the second target
                     let r = a.inst.rpc("brc20_reorg", json!([n]));
                     evals += 1;
+                    // model tie: the recovery's own persistent writes and a probe of what it left
+                    {
+                        let rec = rw_terms(&mut tr, &a.inst.events());
+                        let mut prng = Rng::new(seed ^ 0xC4A5 ^ (k << 8) ^ site as u64);
+                        let probe = match tr.probe(&mut a, &mut prng) { Ok(()) => tr.items.pop(), Err(_) => None };
+                        tr.n_probes = 0;
+                        if let Some(probe) = probe {
+                            if rec.is_empty() { rt.noop += 1; }
+                            if let (SOp::Reorg(_), Some(lv)) = (&h[site], last_vput) { if k as usize > lv + 1 { rt.in_block_tail += 1; } }
+                            records.push(format!("{{| cr_id := {}; cr_done := [{}]; cr_n := {}; cr_accepted := {}; cr_rec := [{}]; cr_probe := {} |}}",
+                                rt.records, done.join("; "), n, if r.is_ok() { "true" } else { "false" }, rec.join("; "), probe));
+                            rt.records += 1;
+                        } else {
+                            failures.push(json!({"what": format!("c04: the recovered instance could not be probed after a crash before write #{} and brc20_reorg({})", k, n), "case": {"history": h[..=site].to_vec(), "crash_at_write": k, "recover_to": n}}));
+                        }
+                    }
                     // a no-op reorg (n = current height) is fine as well
                     let mut fresh = Run::new();
                     let eff = a.tracker.effective_history(&a.log, Some(n));
@@ -300,6 +377,16 @@ fn engine_crash_search(seed: u64, thorough: bool, failures: &mut Vec<serde_json:
                             "case": {"history": h[..=site].to_vec(), "crash_at_write": k, "recover_to": n, "first_difference": d.first().map(|x| json!({"query": x.0, "crashed_then_reorged": x.1, "fresh": x.2}))}}));
                     }
                     break; // the reorg changed the instance: one target per crash
+                }
+            }
+            if !records.is_empty() {
+                rt.sites += 1;
+                // a few records per case: the model replays the trace once per case, the cases are
+                // evaluated in parallel
+                for chunk in records.chunks(6) {
+                    let mut items = trace_items.clone();
+                    items.push(format!("CICrashes {} [\n   {}\n  ]", site_term, chunk.join(";\n   ")));
+                    rt.terms.push(format!("{{| cc_id := {}; cc_items := [\n  {}\n] |}}", 1000 + rt.terms.len(), items.join(";\n  ")));
                 }
             }
         }
@@ -326,7 +413,7 @@ pub struct StoreTie { pub terms: Vec<String>, pub checks: u64, pub writes: u64, 
 /// carries the persistent writes the recorder saw, every other store event a `CIOp`.
 fn store_script_tie(seed: u64, thorough: bool, failures: &mut Vec<serde_json::Value>, dist: &mut BTreeMap<String, u64>) -> StoreTie {
     use crate::sim::{gen_history, with_schedule, CommitSchedule, GenParams, Genesis, Op as SOp, Run};
-    use crate::trace::{key_term, Tracer, BTABLES, VTABLES};
+    use crate::trace::Tracer;
     let mut rng = Rng::new(seed ^ 0x5C04);
     let nhist = if thorough { 30 } else { 5 };
     let mut st = StoreTie { terms: Vec::new(), checks: 0, writes: 0, sample: None };
@@ -367,26 +454,7 @@ fn store_script_tie(seed: u64, thorough: bool, failures: &mut Vec<serde_json::Va
                 if let Some(last) = new_items.last().cloned() {
                     if last.starts_with("IOp (SCommit") || last.starts_with("IOp (SReorg") {
                         new_items.pop();
-                        let mut ws: Vec<String> = Vec::new();
-                        for e in &out.events {
-                            match e {
-                                Ev::VPut { table, hist, key, val } => {
-                                    let t = VTABLES.iter().position(|x| x == table).unwrap_or(99);
-                                    let v = if *hist { if val.is_some() { "(Some 0)".to_string() } else { "None".to_string() } }
-                                            else { match val { Some(b) => format!("(Some {})", tr.val(b)), None => "None".to_string() } };
-                                    ws.push(format!("RV {} {} {}", hist, key_term(t, key), v));
-                                }
-                                Ev::BPut { table, key, val } => {
-                                    let b = BTABLES.iter().position(|x| x == table).unwrap_or(99);
-                                    let v = match val { Some(x) => format!("(Some {})", tr.val(x)), None => "None".to_string() };
-                                    ws.push(format!("RB {} {} {}", b, key, v));
-                                }
-                                Ev::BFlush { table } => { let b = BTABLES.iter().position(|x| x == table).unwrap_or(99); ws.push(format!("RF {}", b)); }
-                                Ev::CFlush { .. } => ws.push("RF 3".to_string()),
-                                Ev::CPut { .. } => ws.push("RF 98".to_string()),
-                                _ => {}
-                            }
-                        }
+                        let ws: Vec<String> = rw_terms(&mut tr, &out.events);
                         st.writes += ws.len() as u64;
                         n_checks += 1;
                         *dist.entry(if matches!(resolved, SOp::Commit) { "store_script_commit" } else { "store_script_reorg" }.to_string()).or_default() += 1;
